@@ -40,8 +40,8 @@ COMPONENTS = {
 }
 PROBES = ["non_identity_order_with_per_atom_drive", "relabelled_register", "reinserted_register", "resume_under_non_identity_order", "dark_atoms_present", "slm_mask_present", "dmm_present", "pi_pulse_bitstring", "non_permutable_observable_safeguard", "real_optimiser_order", "user_initial_state", "register_of_8_to_16_atoms", "observable_with_tag_suffix"]
 ASSUMPTIONS = [
-    "close-pair workloads (SLM mask with a blockaded neighbour, blockade): per-atom tolerance max(3e-2, 20 T E^3 dt^2) - the order-dependent splitting error of 300 ns of strongly driven blockade dynamics was measured at up to 4e-3, a mis-wired interaction moves the pair by 0.2-0.45",
-    "per-atom tolerance max(2e-3, 0.5 T E^3 dt^2) with E the largest single energy of the scenario (two-site TDVP splitting error; the generator keeps the estimate below the floor, e.g. SLM scenarios use a weak first pulse because the mask is a detuning of 10 x its amplitude); comparison tolerance 2e-3 absolute on occupations / correlations, 2e-3 x |H| on energies and 2e-3 x |H|^2 on energy second moment / variance (|H| = an upper bound on the energy scale computed from the scenario, SLM detuning included); the two-site TDVP projection error depends on the site order (the largest occupation discrepancy seen over seeds 0-8 was 7e-5, with an SLM mask), a misdirected per-atom drive moves an occupation by >= 0.05; workloads keep the order-dependent TDVP error orders of magnitude below it (bond dimension uncapped, precision 1e-8, E*dt <= 0.05) and a misdirected per-atom drive changes some occupation by >= 0.05",
+    "two-site TDVP started from a product state projects out part of every coupling between NON-adjacent sites until the bonds have grown (5e-3 on <n_i n_j> for a 4.6 rad/us coupling across one site, independent of dt, measured against emu-sv): strongly interacting, long workloads (SLM mask with a blockaded neighbour, blockade, user matrices) keep their strong couplings between neighbours of the register and use only adjacency-preserving orders (mirror image, the real optimiser's answer); their per-atom tolerance is 3e-2 (close pair) resp. 2e-3, the largest discrepancy seen on the unchanged tree is 1e-5",
+    "comparison tolerance 2e-3 absolute on occupations / correlations, 2e-3 x |H| on energies and 2e-3 x |H|^2 on energy second moment / variance (|H| = an upper bound on the energy scale computed from the scenario, SLM detuning included); the two-site TDVP projection error depends on the site order (the largest occupation discrepancy seen over seeds 0-8 was 7e-5, with an SLM mask), a misdirected per-atom drive moves an occupation by >= 0.05; workloads keep the order-dependent TDVP error orders of magnitude below it (bond dimension uncapped, precision 1e-8, E*dt <= 0.05) and a misdirected per-atom drive changes some occupation by >= 0.05",
     "bit strings are compared exactly only in the pi-pulse workload (deterministic outcome); elsewhere per position against the occupations of the same run (exact binomial test, family-wise level 1e-9 per invocation, noiseless runs only)",
 ]
 
@@ -58,7 +58,9 @@ def gen_case(tape: Tape, tier: str) -> dict:
     if kind in ("slm", "dark", "blockade"):
         n = max(n, 3)
     if kind in ("slm", "blockade") and tier == "quick":
-        n = min(n, 4)  # these runs last 300-400 steps
+        n = 3  # these runs last 300-400 steps; on three sites two-site TDVP is exact to 1e-9 whatever the order
+    if kind == "usermat":
+        n = min(n, 3 if tier == "quick" else 4)  # 400-650 steps
     # registers beyond the reach of a dense reference (the oracle is run-vs-run, so none is needed): 8-16 atoms,
     # >= 9.5 um apart, short sequences, so that the MPS stays weakly entangled whatever the internal order
     large = kind in ("local", "pi", "dmm", "geometry", "initial") and tape.bool(0.05 if tier == "quick" else 0.15, "large")
@@ -84,7 +86,8 @@ def gen_case(tape: Tape, tier: str) -> dict:
         # one strongly interacting pair (8.6-9.2 um, U = 9..13 rad/us) among otherwise distant atoms: which two atoms
         # interact is then clearly visible in the occupations (blockade), so a mis-permuted interaction matrix shows
         i = tape.int(0, n - 1, "pair_i")
-        j = (i + 1 + tape.int(0, n - 2, "pair_j")) % n
+        tape.int(0, n - 2, "pair_j")  # (draw kept so that later draws do not shift)
+        j = i + 1 if i < n - 1 else i - 1  # neighbours in register order: see `strong` below
         ang = tape.float(0.0, 2 * math.pi, "pair_angle")
         r = tape.float(8.6, 9.2, "pair_dist")
         for k_try in range(24):
@@ -99,13 +102,13 @@ def gen_case(tape: Tape, tier: str) -> dict:
     T = tape.int(20, 90, "T") if not close_pair else tape.int(70, 100, "T")
     if large:
         T = min(T, 20 + T % 21)
+    dt = float(tape.choice([1, 2, 3], "dt")) if not close_pair else float(tape.choice([1, 2], "dt"))
     if kind == "blockade":
         T = 130 + 2 * T  # 270-330 ns at 7-10 rad/us: a pulse area of 2-3 rad, so that the blockade of the close pair shows
-        dt = 2.0
+        dt = 1.0
     if kind == "usermat":
         T = 150 + 2 * T  # 190-330 ns: long enough for the *sign* of a coupling to show in the occupations
-        dt = 2.0
-    dt = float(tape.choice([1, 2, 3], "dt")) if not close_pair else float(tape.choice([1, 2], "dt"))
+        dt = 0.5  # ... and a fine step: over such a run the order-dependent splitting error at dt = 3 ns reaches 1e-2
     if kind == "slm":
         dt = 1.0  # the mask is a detuning of -10 x the first pulse's amplitude: the largest energy of the scenario
     ops: list[dict] = []
@@ -156,13 +159,13 @@ def gen_case(tape: Tape, tier: str) -> dict:
     if kind == "usermat":
         # a user-supplied interaction matrix with couplings of both signs (attractive and repulsive): which atoms
         # interact how is visible only through it, and the ordering optimiser is handed that very tensor
+        # ... coupling consecutive atoms of the register only (see `strong` below)
         m = [[0.0] * n for _ in range(n)]
-        for i in range(n):
-            for j in range(i + 1, n):
-                v = round(tape.float(1.0, 8.0, f"u{i}{j}"), 3) * (-1.0 if tape.bool(0.5, f"neg{i}{j}") else 1.0)
-                m[i][j] = m[j][i] = v if tape.bool(0.8, f"has{i}{j}") else 0.0
+        for i in range(n - 1):
+            v = round(tape.float(1.0, 8.0, f"u{i}"), 3) * (-1.0 if tape.bool(0.5, f"neg{i}") else 1.0)
+            m[i][i + 1] = m[i + 1][i] = v
         if not any(x < 0 for row in m for x in row):
-            m[0][1] = m[1][0] = -abs(m[0][1] or 4.0)
+            m[0][1] = m[1][0] = -abs(m[0][1])
         cfg_extra["interaction_matrix"] = m
     if kind == "dark":
         cfg_extra["noise"] = {"state_prep_error": round(tape.float(0.2, 0.5, "prep"), 2), "runs": 1, "samples_per_run": 1}
@@ -186,7 +189,15 @@ def gen_case(tape: Tape, tier: str) -> dict:
     for k in ("interaction_matrix", "noise"):
         if k in cfg_extra:
             cfg[k] = cfg_extra[k]
-    return {"scn": scn, "cfg": cfg, "T": float(S.build_sequence(scn).get_duration()), "n": n, "kind": kind, "extra": cfg_extra, "solver": "tdvp", "large": large, "close_pair": bool(close_pair), "long": bool(close_pair) or kind == "usermat"}
+    return {"scn": scn, "cfg": cfg, "T": float(S.build_sequence(scn).get_duration()), "n": n, "kind": kind, "extra": cfg_extra, "solver": "tdvp", "large": large, "close_pair": bool(close_pair), "long": bool(close_pair) or kind == "usermat",
+            # Strongly interacting atoms driven for hundreds of ns.  Two-site TDVP starts from a product state (bond dimension
+            # 1), where the tangent space only contains changes on ADJACENT sites: a coupling n_i n_j between non-adjacent
+            # sites is partly projected out until the bonds have grown - an error of the method that does not vanish with dt
+            # (5e-3 on <n_i n_j> for a 4.6 rad/us coupling across one site, measured against emu-sv, which the adjacent and
+            # the mirrored order match to 1e-9) and that depends on the order.  It says nothing about the permutation
+            # book-keeping this property is about, so these workloads keep the strong couplings between neighbours of the
+            # register and only use orders that preserve adjacency: the mirror image and the real optimiser's answer.
+            "strong": bool(close_pair) or kind == "usermat"}
 
 
 def cycle_type(p: list[int]) -> str:
@@ -273,10 +284,9 @@ def energy_scale(case: dict) -> float:
 
 
 def splitting_error_estimate(case: dict) -> float:
-    """Two-site TDVP at full bond dimension is exact only up to the splitting error between the two-site updates of a
-    sweep, of order (E dt)^3 per step with E the largest single energy of the Hamiltonian (a coupling, a Rabi
-    frequency, a detuning - the SLM mask is a detuning of 10 x the first pulse's amplitude); which terms sit on
-    adjacent sites, and therefore its prefactor, depends on the internal order.  Over the run: T E^3 dt^2."""
+    """T E^3 dt^2 with E the largest single energy of the scenario: reported in the evidence as a descriptive number
+    only.  (It was briefly used to scale the tolerance, on the wrong theory that the order-dependent error is a
+    splitting error; it is a projection error, see the `strong` flag in gen_case.)"""
     pts = [(a[1], a[2]) for a in case["scn"]["atoms"]]
     n = len(pts)
     e = 0.0
@@ -300,16 +310,11 @@ def splitting_error_estimate(case: dict) -> float:
 
 
 def tolerances(case: dict) -> dict:
-    """Energies scale with |H|, second moment and variance with |H|^2: the comparison tolerance is relative.  Per-atom
-    quantities get max(TOL, 0.5 x the splitting-error estimate of the scenario); the generator keeps that estimate below
-    2 TOL, so this is a safety net (largest observed discrepancy / estimate: 0.15, in the scenario that prompted it)."""
+    """Energies scale with |H|, second moment and variance with |H|^2: the comparison tolerance is relative."""
     h = energy_scale(case)
-    t = max(TOL, 0.5 * splitting_error_estimate(case))
-    if case.get("close_pair"):
-        # strongly driven blockade dynamics over ~300 ns: the order-dependent splitting error reaches 4e-3 on the
-        # blockaded atoms (measured on the unchanged tree), while anything that mis-wires the interaction of the close
-        # pair moves their occupations by 0.2-0.45.  These workloads exist to see the latter.
-        t = max(TOL_CLOSE_PAIR, 20.0 * splitting_error_estimate(case))
+    # close-pair workloads: their far atoms still couple weakly (<= 0.5 rad/us) across non-adjacent sites; anything that
+    # mis-wires the interaction of the close pair moves its occupations by 0.2-0.45
+    t = TOL_CLOSE_PAIR if case.get("close_pair") else TOL
     f = t / TOL
     return {"occupation": t, "correlation_matrix": t, "occupation_x": t, "correlation_matrix_x": t, "energy": t * h, "energy_variance": t * h * h, "energy_second_moment": t * h * h, "_scale": f}
 
@@ -383,8 +388,12 @@ def run_one(tape: Tape, tier: str, opts: dict) -> dict:
         # ---- internal orders
         perms: list[Any] = [ident[::-1]]
         for i in range(2 if tier == "quick" else 4):
-            perms.append(tape.permutation(n, f"perm{i}"))
-        if tape.bool(0.25 if tier == "quick" else 0.4, "use_real") or kind == "usermat":
+            pr = tape.permutation(n, f"perm{i}")
+            if not case.get("strong"):
+                perms.append(pr)
+        if case.get("strong"):
+            perms.append("real")
+        if tape.bool(0.25 if tier == "quick" else 0.4, "use_real") and "real" not in perms:
             perms.append("real")  # the real optimiser runs (on the tensor the solver uses), its answer is the order
         resume_choice = tape.int(0, len(perms) - 1, "resume_choice") if tape.bool(0.4, "with_resume") else -1
         for pi_, perm in enumerate(perms):
@@ -454,6 +463,12 @@ def run_one(tape: Tape, tier: str, opts: dict) -> dict:
                 m0 = case["cfg"]["interaction_matrix"]
                 over["interaction_matrix"] = [[m0[ins[a]][ins[b]] for b in range(n)] for a in range(n)]
             perm2 = tape.permutation(n, "perm_relabel")
+            if case.get("strong"):
+                # site s holds register atom perm2[s]: undo the re-insertion, so that the chain is in its original order
+                inv = [0] * n
+                for pos, src in enumerate(ins):
+                    inv[src] = pos
+                perm2 = inv if tape.bool(0.5, "relabel_mirror") else inv[::-1]
             out2 = run_under(world, case, seeds, perm2, scn=scn2, cfg_over=over)
             evals += 1
             probes["reinserted_register"] = 1
@@ -484,6 +499,8 @@ def run_one(tape: Tape, tier: str, opts: dict) -> dict:
             # the same scenario with the extra observable under the identity order and under another order: whatever the
             # config decides about reordering, every reported value - the extra one included - must be the same
             perm3 = ident[::-1] if tape.bool(0.5, "sg_rev") else tape.permutation(n, "sg_perm")
+            if case.get("strong"):
+                perm3 = ident[::-1]
             nperm_before = len(world.log.of_kind("perm"))
             out3i = run_under(world, case2, seeds, ident)
             out3 = run_under(world, case2, seeds, perm3)
